@@ -126,4 +126,7 @@ $(S)/bundled.so: $(LIBSRC_NOSSL) $(B)/include/zck.h
 	@mkdir -p $(S)
 	$(CC) $(SOFLAGS) -shared -Wl,-Bsymbolic $(LIBSRC_NOSSL) -lzstd -o $@
 
+$(A)/C18: $(A)/C18.o $(S)/ossl.so $(S)/bundled.so
+	$(CXX) $(SAN) $(A)/C18.o -ldl $(LDLIBS) -o $@
+
 -include $(AOBJ:.o=.d) $(POBJ:.o=.d) $(TOBJ:.o=.d)
